@@ -87,6 +87,20 @@ func (in *objIndex) UnmarshalJSON(data []byte) error {
 	in.ObjectIds = tmp.ObjectIds
 	in.uuids = make(map[string]uint64)
 
+	// json null gives nil maps
+	if in.Fields == nil {
+		in.Fields = make(map[string]*fieldIndex)
+	}
+	if in.ObjectIds == nil {
+		in.ObjectIds = make(map[uint64]string)
+	}
+
+	for fn, fi := range in.Fields {
+		if fi == nil {
+			return fmt.Errorf("%w: index of field %s is null", ErrBadIndexedField, fn)
+		}
+	}
+
 	// we search next index to use for object
 	for i, uuid := range in.ObjectIds {
 		if i > in.i {
@@ -235,6 +249,19 @@ func (in *objIndex) control() error {
 		if in.Fields[fn].Len() != in.len() {
 			return fmt.Errorf("index and fields index must have the same size, len(index)=%d len(index[%s])=%d", in.len(), fn, in.Fields[fn].Len())
 		}
+		// every field index must reference each known object exactly once
+		if len(in.Fields[fn].objectIds) != in.len() {
+			return fmt.Errorf("field index %s references the same object several times", fn)
+		}
+		for objid := range in.Fields[fn].objectIds {
+			if _, ok := in.ObjectIds[objid]; !ok {
+				return fmt.Errorf("field index %s references unknown object id %d", fn, objid)
+			}
+		}
+	}
+	// an object must be known under a single id
+	if len(in.uuids) != len(in.ObjectIds) {
+		return fmt.Errorf("several object ids for the same object, len(ids)=%d len(uuids)=%d", len(in.ObjectIds), len(in.uuids))
 	}
 	return nil
 }
